@@ -220,6 +220,26 @@ func ruleR28(c *Ctx) *RuleResult {
 					}
 				}
 				// remove: the two-children case hands the work to removeMin on the right subtree with the addresses of this node's key and value
+				if nm, args, ok := effDo(ef); ok && nm == "removeMin" && sp.name == "remove" && len(args) == 1 {
+					// removeMin returns the detached minimum: this node takes over its key and its value on this path
+					nhand++
+					if noEpoch(args[0]) != "(ia (fa:Children "+q+") #:1)" {
+						bad = append(bad, "removeMin is not applied to the right subtree: "+trunc(noEpoch(ef), 200))
+					}
+					least := "(ext:0 (res " + noEpoch(ef) + "))"
+					kk, vv := false, false
+					for _, e2 := range g.Effects {
+						if isStore(e2) && noEpoch(e2.Args[0]) == "(fa:Key "+q+")" && noEpoch(e2.Args[1]) == "(load (fa:Key "+least+"))" {
+							kk = true
+						}
+						if isStore(e2) && noEpoch(e2.Args[0]) == "(fa:Value "+q+")" && noEpoch(e2.Args[1]) == "(load (fa:Value "+least+"))" {
+							vv = true
+						}
+					}
+					if !kk || !vv {
+						bad = append(bad, "the node does not take over both key and value of the minimum removeMin detached")
+					}
+				}
 				if nm, args, ok := effDo(ef); ok && nm == "removeMin" && sp.name == "remove" && len(args) == 3 {
 					nhand++
 					if noEpoch(args[0]) != "(ia (fa:Children "+q+") #:1)" || noEpoch(args[1]) != "(fa:Key "+q+")" || noEpoch(args[2]) != "(fa:Value "+q+")" {
@@ -244,6 +264,19 @@ func ruleR28(c *Ctx) *RuleResult {
 						}
 						if isStore(ef) && ef.Args[0].String() == "p:2" && noEpoch(ef.Args[1]) == "(load (fa:Value "+q+"))" {
 							v = true
+						}
+					}
+					if !k && !v && g.Exit.Op == "return" && len(g.Exit.Args) >= 1 && noEpoch(g.Exit.Args[0]) == q {
+						// the other way of handing over: the detached node itself is returned (read before the link was
+						// overwritten: the same dated load the path's guards test), and remove copies key and value out of it
+						atEntry := false
+						for _, a := range g.Guards {
+							if a.any(func(t *Term) bool { return t.String() == g.Exit.Args[0].String() }) {
+								atEntry = true
+							}
+						}
+						if atEntry {
+							k, v = true, true
 						}
 					}
 					if !k || !v {
